@@ -73,6 +73,7 @@ theorem dstep_openSession_inv {i : Nat} (h : dstep c s (.openSession i) = some s
     ∃ ss f, s.phase = .running ∧ sessionsOf s.inflight i = some ss ∧ c.fileAt i = some f ∧
       s.cancelled = false ∧
       s' = { s with inflight := setSessions s.inflight i (ss ++ [s.nextSess]),
+                    begun := i :: s.begun,
                     nextSess := s.nextSess + 1,
                     log := s.log ++ [.connect s.nextSess f.db] } := by
   rw [dstep] at h
@@ -115,7 +116,8 @@ theorem dstep_sql_inv {i k : Nat} {text : Str} (h : dstep c s (.sql i k text) = 
 theorem dstep_finish_inv {i : Nat} {res : FileResult} {refused : Bool}
     (h : dstep c s (.finish i res refused) = some s') :
     ∃ ss, s.phase = .running ∧ sessionsOf s.inflight i = some ss ∧
-      res ≠ .skipped ∧ (res = .cancelled → s.cancelled = true) ∧ (refused = true → res = .err) ∧
+      (res = .skipped → s.cancelled = true ∧ i ∉ s.begun ∧ ∀ p ∈ s.inflight, p.2 = []) ∧
+      (res = .cancelled → s.cancelled = true) ∧ (refused = true → res = .err) ∧
       s' = { s with inflight := s.inflight.filter (fun p => p.1 ≠ i),
                     results := s.results ++ [(i, res)],
                     cancelled := s.cancelled || (res == .err && (c.failFast || refused)),
@@ -127,13 +129,43 @@ theorem dstep_finish_inv {i : Nat} {res : FileResult} {refused : Bool}
     split at h
     · simp at h
     · rename_i hc
-      refine ⟨ss, hp, hs, fun e => hc (Or.inl e), ?_, ?_, (Option.some.inj h).symm⟩
+      refine ⟨ss, hp, hs, ?_, ?_, ?_, (Option.some.inj h).symm⟩
+      · intro e
+        refine ⟨?_, ?_, ?_⟩
+        · cases hcc : s.cancelled with
+          | true => rfl
+          | false => exact absurd (Or.inl ⟨e, Or.inl (by simp [hcc])⟩) hc
+        · intro hb
+          exact hc (Or.inl ⟨e, Or.inr (Or.inl (List.contains_iff_mem.mpr hb))⟩)
+        · intro p hpm
+          cases hpe : p.2 with
+          | nil => rfl
+          | cons a as =>
+            refine absurd (Or.inl ⟨e, Or.inr (Or.inr ?_)⟩) hc
+            exact List.any_eq_true.mpr ⟨p, hpm, by simp [hpe]⟩
       · intro e
         cases hcc : s.cancelled with
         | true => rfl
         | false => exact absurd (Or.inr (Or.inl ⟨e, by simp [hcc]⟩)) hc
       · intro e
         exact Classical.not_not.mp (fun hne => hc (Or.inr (Or.inr ⟨e, hne⟩)))
+  · simp at h
+
+theorem dstep_closeSession_inv {i k : Nat} (h : dstep c s (.closeSession i k) = some s') :
+    ∃ ss, s.phase = .running ∧ sessionsOf s.inflight i = some ss ∧ k ∈ ss ∧
+      s' = { s with inflight := setSessions s.inflight i (ss.filter (fun x => x ≠ k)),
+                    log := s.log ++ [.eof k] } := by
+  rw [dstep] at h
+  split at h
+  · rename_i ss hp hs
+    split at h
+    · simp at h
+    · rename_i hc
+      have hk : k ∈ ss := by
+        cases hk : ss.contains k with
+        | true => simpa using hk
+        | false => exact absurd (by rw [hk]; rfl) hc
+      exact ⟨ss, hp, hs, hk, (Option.some.inj h).symm⟩
   · simp at h
 
 theorem dstep_signal_inv (h : dstep c s .signal = some s') :
